@@ -15,3 +15,7 @@ m = Model()
 out = {q: [p.name for p in f.params] for q, f in sorted(m.functions.items())}
 pathlib.Path("/verif/curies_verif/known_signatures.json").write_text(json.dumps(out, indent=0, sort_keys=True))
 print(len(out), "signatures")
+
+consts = {name: sorted(mod.constants) for name, mod in sorted(m.modules.items())}
+pathlib.Path("/verif/curies_verif/known_constants.json").write_text(json.dumps(consts, indent=0, sort_keys=True))
+print(sum(len(v) for v in consts.values()), "module-level constants")
